@@ -10,6 +10,7 @@ from tiv.astutil import body_walk, call_name, dotted, enclosing_stmt, flatten_bo
 from tiv.effects import is_output_call, names_in, output_aliases
 from tiv.match import find_stmts, match_expr
 from tiv.mutate import M
+from tiv.sem import trace, expand, same, same_bool, cx
 from tiv.srcmodel import AnalysisError
 
 RULES = {
@@ -116,6 +117,30 @@ def _row_delta(e, env, frame_lines):
     raise Unk(norm(e)[:50])
 
 
+def _hw(e):
+    """size canonicalisation (render sizes are named tuples): `<...>.size[1]` -> `<...>.size.height`."""
+    class T(ast.NodeTransformer):
+        def visit_Subscript(self, n):
+            self.generic_visit(n)
+            if isinstance(n.slice, ast.Constant) and n.slice.value in (0, 1) and norm(n.value).endswith(".size"):
+                return ast.Attribute(value=n.value, attr=("width", "height")[n.slice.value], ctx=ast.Load())
+            return n
+    from tiv.astutil import clone
+    return T().visit(clone(e))
+
+
+def _hwt(e):
+    """terminal size canonicalisation: `get_terminal_size().lines` -> `get_terminal_size()[1]`, `.columns` -> `[0]`."""
+    class T(ast.NodeTransformer):
+        def visit_Attribute(self, n):
+            self.generic_visit(n)
+            if n.attr in ("lines", "columns") and norm(n.value) == "get_terminal_size()":
+                return ast.Subscript(value=n.value, slice=ast.Constant(value=1 if n.attr == "lines" else 0), ctx=ast.Load())
+            return n
+    from tiv.astutil import clone
+    return T().visit(clone(e))
+
+
 def _print_delta(c, env, frame_lines, aliases):
     """Row displacement of an output call (print adds its `end`, default newline)."""
     cn = call_name(c) or ""
@@ -154,23 +179,30 @@ def run(ck, m):
     ck.ob("R1", an, not raw_new, f"the new API must use the guarded helpers; raw templates found: {[short(n, 40) for n in raw_new]}", stmt="Renderable.draw/_animate_: guarded cursor helpers only")
 
     # ---- R2 (new API) ------------------------------------------------------------------
-    env = _local_env(an)
+    # Symbols are *traced* expressions (tiv.sem.trace): the render size is `render_data[Renderable].size`, the margins are the
+    # components of `padding._get_exact_dimensions_(<render size>)`; local names and helper strings play no role.
     al = output_aliases(an) | {"write"}
-    un = find_stmts("$$pl, _, _, $$pb = padding._get_exact_dimensions_(render_size)", body_walk(an))
-    ck.expect(len(un) == 1 and "height" in env and norm(env["height"]) == "render_size.height", "_animate_: `height`/`pad_left, _, _, pad_bottom` bindings not recognised")
-    PH = poly(parse("pad_top + height + pad_bottom"))           # lines of the padded first frame (pad_top is the unnamed 2nd margin)
-    H = poly(parse("height"))
-    sp = next((s for s in body_walk(an) if isinstance(s, ast.Expr) and norm(s.value) == "render_iter.set_padding(NO_PADDING)"), None)
+    itv = [norm(t) for t, st in stores_in(ast.Module(body=an.body, type_ignores=[])) if isinstance(st, ast.Assign) and isinstance(st.value, ast.Call) and (call_name(st.value) or "").endswith("_from_render_data_")]
+    ck.need(len(itv) == 1, "_animate_: `<iterator> = RenderIterator._from_render_data_(...)` not found")
+    ITV = itv[0]
+    RS = "render_data[Renderable].size"
+    D = f"padding._get_exact_dimensions_({RS})"
+    PH = poly(parse(f"{D}[1] + {RS}.height + {D}[3]"))           # lines of the padded first frame
+    H = poly(parse(f"{RS}.height"))
+    env = {}
+    sp = next((s for s in body_walk(an) if isinstance(s, ast.Expr) and norm(s.value) == f"{ITV}.set_padding(NO_PADDING)"), None)
     ck.ob("R2", sp or an, sp is not None, "after the first (padded) frame the iterator must be switched to NO_PADDING: later frames are drawn inside the padding already on screen", stmt="_animate_: set_padding(NO_PADDING) after the first frame")
     writes = [c for c in body_walk(an) if isinstance(c, ast.Call) and is_output_call(c, al) and (call_name(c) or "") != "flush"]
-    loop = next((n for n in body_walk(an) if isinstance(n, ast.For) and norm(n.iter) == "render_iter"), None)
+    loop = next((n for n in body_walk(an) if isinstance(n, ast.For) and norm(n.iter) == ITV), None)
     ck.need(loop is not None and sp is not None, "_animate_: frame loop / set_padding not found")
+    frame_vars = {norm(loop.target)} | {norm(t) for t, st in stores_in(ast.Module(body=an.body, type_ignores=[])) if isinstance(st, ast.Assign) and norm(st.value) == f"next({ITV})"}
     try:
         deltas = []
         for c in writes:
             padded = c.lineno < sp.lineno
-            fl = {"frame": _add(PH if padded else H, {(): -1})}
-            deltas.append((c, _print_delta(c, env, fl, al)))
+            fl = {fv: _add(PH if padded else H, {(): -1}) for fv in frame_vars}
+            c2 = ast.Call(func=c.func, args=[_hw(trace(an, a_, keep=tuple(frame_vars))) for a_ in c.args], keywords=c.keywords)
+            deltas.append((c, _print_delta(c2, env, fl, al)))
     except (Unk, NotPoly) as e:
         raise AnalysisError(f"C06.R2: a write in _animate_ is not in the cursor-row transfer table: {e}") from None
     first = [d for c, d in deltas if c.lineno < sp.lineno]
@@ -182,36 +214,48 @@ def run(ck, m):
         ck.ob("R2", loop, tot_loop == {}, f"one iteration of the frame loop displaces the cursor by {show(tot_loop)} rows: successive frames are not drawn over the same cells", stmt="_animate_: loop iteration row-neutral")
         ck.ob("R2", loop, inloop[0] == _add(H, {(): -1}), f"a frame of `height` lines moves the cursor height-1 rows; computed {show(inloop[0])}", stmt="_animate_: frame write displacement")
         after_first = _add(first[0], first[1])
-        ck.ob("R2", enclosing_stmt(writes[1]), after_first == poly(parse("pad_top")),
-              f"after the first (padded) frame the cursor must return to the top line of the render region (row pad_top); it is at row {show(after_first)}: later frames are shifted by {show(_add(after_first, poly(parse('pad_top')), -1))} rows",
+        ck.ob("R2", enclosing_stmt(writes[1]), after_first == poly(parse(f"{D}[1]")),
+              f"after the first (padded) frame the cursor must return to the top line of the render region (row pad_top); it is at row {show(after_first)}: later frames are shifted by {show(_add(after_first, poly(parse(D + '[1]')), -1))} rows",
               stmt="_animate_: after first frame cursor at top of the render region")
         end = _add(after_first, final[0][1])
         want = _add(PH, {(): -1})
         ck.ob("R2", enclosing_stmt(final[0][0]), end == want,
               f"on normal completion the cursor must be on the last line of the padded region (row {show(want)}) before draw() writes its newline; it is at row {show(end)}", stmt="_animate_: final cursor_down reaches the last line of the padded region")
-        g = [norm(t) for t, b in guards(final[0][0]) if b]
-        ck.ob("R2", enclosing_stmt(final[0][0]), g == ["first_frame_written"], "the final move must happen only if the first frame was written", stmt="_animate_: final move iff first frame written")
+        g = [t for t, b in guards(final[0][0]) if b]
+        okg = len(g) == 1 and isinstance(g[0], ast.Name)
+        if okg:
+            # the flag: False before the first frame, True right after the first frame's writes (before the loop), never otherwise
+            fs = [st for t, st in stores_in(ast.Module(body=an.body, type_ignores=[])) if isinstance(t, ast.Name) and t.id == g[0].id]
+            vals = sorted((norm(st.value), st.lineno) for st in fs if isinstance(st, ast.Assign))
+            first_w = [c for c in writes if c.lineno < sp.lineno]
+            okg = len(fs) == 2 and [v for v, _ in vals] == ["False", "True"] and vals[0][1] < min(c.lineno for c in first_w) and max(c.lineno for c in first_w) < vals[1][1] < loop.lineno
+        ck.ob("R2", enclosing_stmt(final[0][0]), okg, "the final move must happen only if the first frame was written (a flag that is False until the first frame's writes completed)", stmt="_animate_: final move iff first frame written")
     # still path + final newline in draw
     fw = [c for c in body_walk(dr) if isinstance(c, ast.Call) and norm(c.func) == "output.write" and any(part == "finalbody" for _, part in try_context(c))]
     ck.ob("R2", dr, len([c for c in fw if norm(c.args[0]) == "'\\n'"]) == 1, "draw() must write exactly one newline in its clean-up (cursor to the line below the region)", stmt="draw: exactly one final newline")
 
     # ---- R2 (old API) ------------------------------------------------------------------
     da = m.get(CM, "BaseImage._display_animated")
-    env_o = _local_env(da)
-    L = poly(parse("lines"))
-    fl = {"frame": _add(L, {(): -1}), "next": _add(L, {(): -1})}
+    LT = "max(fmt[-1], self.rendered_height)"
+    L = poly(parse(LT))
+    oloop = next((n for n in body_walk(da) if isinstance(n, ast.For)), None)
+    ck.need(oloop is not None, "_display_animated: frame loop not found")
+    ofv = (norm(oloop.target),)
+    fl = {ofv[0]: _add(L, {(): -1}), "next": _add(L, {(): -1})}
     pw = [c for c in body_walk(da) if isinstance(c, ast.Call) and call_name(c) == "print"]
+
+    def traced_call(fn, c, keep=()):
+        return ast.Call(func=c.func, args=[trace(fn, a_, keep=keep) for a_ in c.args], keywords=[ast.keyword(arg=k.arg, value=trace(fn, k.value, keep=keep)) for k in c.keywords])
     try:
-        od = [(c, _print_delta(c, env_o, fl, set())) for c in pw]
+        od = [(c, _print_delta(traced_call(da, c, ofv), {}, fl, set())) for c in pw]
     except (Unk, NotPoly) as e:
         raise AnalysisError(f"C06.R2: a write in _display_animated is not in the cursor-row transfer table: {e}") from None
-    oloop = next((n for n in body_walk(da) if isinstance(n, ast.For)), None)
-    o_first = [d for c, d in od if oloop is not None and c.lineno < oloop.lineno]
-    o_in = [d for c, d in od if oloop is not None and any(a is oloop for a in _anc(c))]
+    o_first = [d for c, d in od if c.lineno < oloop.lineno]
+    o_in = [d for c, d in od if any(a is oloop for a in _anc(c))]
     o_fin = [(c, d) for c, d in od if any(part == "finalbody" for _, part in try_context(c))]
     ck.expect(len(o_first) == 1 and len(o_in) == 1 and len(o_fin) == 1, "_display_animated: first/loop/final prints not recognised")
-    ln = env_o.get("lines")
-    ck.ob("R2", da, ln is not None and norm(ln) == "max(fmt[-1], self.rendered_height)", "the animation occupies max(padding height, rendered height) lines", stmt="_display_animated: lines = max(fmt[-1], rendered_height)")
+    cuu = [n for n in body_walk(da) if isinstance(n, ast.BinOp) and isinstance(n.op, ast.Mod) and (dotted(n.left) or "").split(".")[-1] in ("CURSOR_UP", "CURSOR_DOWN")]
+    ck.ob("R2", da, bool(cuu) and all(LT in norm(trace(da, n.right)) for n in cuu), "the animation occupies max(padding height, rendered height) lines: every vertical cursor move must be computed from it", stmt="_display_animated: lines = max(fmt[-1], rendered_height)")
     if len(o_first) == 1 and len(o_in) == 1 and len(o_fin) == 1:
         ck.ob("R2", oloop, o_in[0] == {}, f"one iteration of the old-API frame loop displaces the cursor by {show(o_in[0])} rows", stmt="_display_animated: loop iteration row-neutral")
         rnd = m.get(CM, "BaseImage.draw.render")
@@ -224,20 +268,23 @@ def run(ck, m):
               f"i.e. {show(_add(end, L, -1))} rows too low whenever there is room below", stmt="_display_animated: final position = line below the animation")
     # wezterm pre-erase is row-neutral
     ia = m.get(IT, "ITerm2Image._display_animated")
-    env_i = _local_env(ia)
     pi = [c for c in body_walk(ia) if isinstance(c, ast.Call) and call_name(c) == "print"]
     ck.expect(len(pi) == 1, "ITerm2Image._display_animated: pre-erase print not found")
     if pi:
+        tc_ = traced_call(ia, pi[0])
         try:
-            env_i2 = {k: v for k, v in env_i.items() if k != "first_frame"}
-            ff = env_i.get("first_frame")
-            # first_frame = self._format_render(<L-line erase block>, *fmt): padded to `lines` lines
-            d = _print_delta(pi[0], env_i2, {"first_frame": _add(L, {(): -1})}, set())
+            # self._format_render(<L-line erase block>, *fmt): padded to `lines` lines
+            d = _print_delta(tc_, {}, {"next": _add(L, {(): -1})}, set())
         except (Unk, NotPoly) as e:
             raise AnalysisError(f"C06.R2: ITerm2Image._display_animated pre-erase not in the transfer table: {e}") from None
         ck.ob("R2", enclosing_stmt(pi[0]), d == {}, f"the wezterm pre-erase must bring the cursor back to the first line; net displacement {show(d)}", stmt="ITerm2Image._display_animated: pre-erase row-neutral")
-        blk = env_i.get("first_frame")
-        okb = blk is not None and isinstance(blk, ast.Call) and blk.args and match_expr("f'{erase_and_move_cursor}\\n' * (lines - 1) + erase_and_move_cursor", blk.args[0]) is not None
+        fr_ = next((n for a_ in tc_.args for n in ast.walk(a_) if isinstance(n, ast.Call) and (call_name(n) or "").endswith("_format_render") and n.args), None)
+        okb = False
+        if fr_ is not None:
+            try:
+                okb = _row_delta(fr_.args[0], {}, {}) == _add(L, {(): -1})
+            except (Unk, NotPoly):
+                okb = False
         ck.ob("R2", ia, okb, "the pre-erase block must have lines-1 newlines (lines lines)", stmt="ITerm2Image._display_animated: erase block has lines-1 newlines")
 
     # ---- R3 ----------------------------------------------------------------------------
@@ -266,8 +313,19 @@ def run(ck, m):
     rrs = [r for r in body_walk(rn) if isinstance(r, ast.Raise) and "InvalidSizeError" in norm(r.exc)]
     rc2 = next((c for c in body_walk(rn) if isinstance(c, ast.Call) and norm(c.func) == "renderer"), None)
     ck.ob("R3", rn, len(rrs) == 2 and rc2 is not None and all(r.lineno < rc2.lineno for r in rrs), "_renderer must raise InvalidSizeError before calling the renderer", stmt="_renderer: validation before rendering")
-    ck.ob("R3", rn, "map(mul, self.rendered_size, (1, not scroll))" in norm(rn) and "map(gt," in norm(rn), "_renderer: both axes are compared with the terminal size, the height waived by *scroll*", stmt="_renderer: width always, height unless scroll")
-    ck.ob("R3", rn, any(isinstance(s, ast.If) and norm(s.test) == "animated and self.rendered_height > terminal_size.lines" for s in body_walk(rn)), "_renderer: animations must fit vertically", stmt="_renderer: animation height check")
+    canonical = "map(mul, self.rendered_size, (1, not scroll))" in norm(rn) and "map(gt," in norm(rn)
+    explicit = None
+    if not canonical and rrs:
+        t0 = next((t for t, b_ in guards(rrs[0]) if b_ and "scroll" in norm(t)), None)
+        if t0 is not None:
+            tt = trace(rn, t0)
+            RW, RH, TW, TH = "self.rendered_size[0]", "self.rendered_size[1]", "get_terminal_size()[0]", "get_terminal_size()[1]"
+            forms = [f"{RW} > {TW} or (0 if scroll else {RH}) > {TH}", f"{RW} > {TW} or (not scroll and {RH} > {TH})", f"{RW} > {TW} or ({RH} > {TH} and not scroll)"]
+            explicit = any(same_bool(None, tt, f_) for f_ in forms)
+    ck.expect(canonical or explicit is not None, "_renderer: the size comparison is not in a recognised form")
+    if canonical or explicit is not None:
+        ck.ob("R3", rn, canonical or bool(explicit), "_renderer: both axes are compared with the terminal size, the height waived by *scroll*", stmt="_renderer: width always, height unless scroll")
+    ck.ob("R3", rn, any(isinstance(s, ast.If) and same_bool(None, _hwt(trace(rn, s.test)), "animated and self.rendered_height > get_terminal_size()[1]") for s in body_walk(rn)), "_renderer: animations must fit vertically", stmt="_renderer: animation height check")
     od_ = m.get(CM, "BaseImage.draw")
     rcall3 = next((c for c in body_walk(od_) if isinstance(c, ast.Call) and norm(c.func) == "self._renderer"), None)
     rs3 = [r for r in od_.body if isinstance(r, ast.If) and any(isinstance(x, ast.Raise) for x in r.body)]
